@@ -277,6 +277,14 @@ def conv_into(ip, st, ci):
         return ("iobuf", tg, tg, ip.sizeof(crate(ci), et))
     if v[0] == "bytes" and ip.is_bytes_ty(crate(ci), dest_ty(ip, ci)):
         return v
+    if v[0] == "bool" and dt["k"] == "uint":
+        c = v[1]
+        if c in (("true",), ("false",)):
+            n_ = 1 if c == ("true",) else 0
+            return vsize(n_) if dt["name"] == "usize" else vint(T.iconst(int(dt["name"][1:]), n_))
+        if c[0] in ("ge", "lt", "eq", "ne") and dt["name"] == "usize":
+            return [(s2, vsize(1 if yes else 0)) for s2, yes in fork_on(st, c)]
+        raise Undecided("integer from an undecided bool")
     if v[0] == "bytes" and dt["k"] == "uint" and dt["name"] not in ("usize",) and T.blen(v[1]) == ONE:
         v = vint(T.ifrombytes("le", 8, v[1], st.F))      # a u8 held as one byte
     if v[0] == "int" and dt["k"] == "uint" and dt["name"] not in ("usize",):
@@ -1160,6 +1168,41 @@ def result_or_else(ip, st, ci):
     if v[3] in ("Ok", "Some"):
         return v
     return _call_closure(ip, st, ci, clo, list(v[4]) if v[3] == "Err" else [])
+
+
+@prim("core::slice::from_ref", "core::slice::from_mut", "core::array::from_ref", "core::array::from_mut")
+def slice_from_ref(ip, st, ci):
+    """&T as a one-element slice: the same referent."""
+    v = ci["args"][0]
+    if v[0] != "ref":
+        raise Undecided("slice::from_ref of %s" % v[0])
+    tv = ip.load(st, v[1], log=False)
+    if tv[0] == "bytes" and not (v[1].path and v[1].path[-1][0] == "br"):
+        return vref(ip.br(v[1], ZERO, T.blen(tv[1])))
+    return v
+
+
+@prim("core::iter::zip")
+def iter_zip_fn(ip, st, ci):
+    a = _as_iter(ip, st, ci, ci["args"][0], ci["argops"][0])
+    b = _as_iter(ip, st, ci, ci["args"][1], ci["argops"][1])
+    return ("iter", "zip", a, b)
+
+
+@prim("core::num::NonZero::<T>::new")
+def nonzero_new(ip, st, ci):
+    v = ci["args"][0]
+    if v[0] != "size":
+        raise Undecided("NonZero::new of %s" % v[0])
+    out = []
+    for s2, nz in fork_on(st, ("ge", v[1] - 1)):
+        out.append((s2, vsome(v) if nz else vnone()))
+    return out
+
+
+@prim("core::num::NonZero::<T>::get")
+def nonzero_get(ip, st, ci):
+    return ci["args"][0]
 
 
 @prim("Option::<T>::take")
@@ -2171,7 +2214,7 @@ def iter_fold(ip, st, ci):
     def runner(s, idx):
         out = []
         for s2, e in iter_elem_multi(ip, s, it, idx):
-            acc = s2.heap[cell]
+            acc = ip.load(s2, Target(cell))
             if clo[0] != "closure":
                 raise Undecided("fold with %s callback" % clo[0])
             for s3, r in _call_closure(ip, s2, ci, clo, [acc, e]):
